@@ -13,6 +13,15 @@ structure GCfg where
 
 def codeCfg : GCfg := ⟨Generated.Dcc.gateMin, Generated.Dcc.gateMax, Generated.Dcc.gateEps⟩
 
+/-- the double of 1e-9: the repository's `_T_EPSILON`, subtracted from `t_go` in `is_open` (known finding C19-KF1) -/
+def kf1Eps : Rat := 4835703278458517 / 4835703278458516698824704
+
+/-- the code's interval constants with the repaired comparison `t >= t_go` (no tolerance) -/
+def exactCfg : GCfg := ⟨Generated.Dcc.gateMin, Generated.Dcc.gateMax, 0⟩
+
+/-- the code's interval constants with the repository's 1 ns tolerance (C19-KF1 variant) -/
+def kf1Cfg : GCfg := ⟨Generated.Dcc.gateMin, Generated.Dcc.gateMax, kf1Eps⟩
+
 structure GState where
   delta : Rat
   tpg : Option Rat
